@@ -95,7 +95,7 @@ def history(F, R):
         for c in h.calls(r'::deliver_sample_history$'):
             t = sym_nstr(sym(h, c.args[2]))
             R.ob('FLOW', 'FLOW::%s::history_request-from-registry-entry' % fnkey(h), t.endswith('history_request'), 'deliver_sample_history(connection, %s)' % t, c.where, h)
-            R.ob('FLOW', 'FLOW::%s::history-to-the-new-connection' % fnkey(h), sym_nstr(sym(h, c.args[1])) == 'connection', 'history is replayed into `%s`' % sym_nstr(sym(h, c.args[1])), c.where, h)
+            R.ob('FLOW', 'FLOW::%s::history-to-the-new-connection' % fnkey(h), lib.param_is(h, c.args[1], 'connection', 2), 'history is replayed into `%s`' % sym_nstr(sym(h, c.args[1])), c.where, h)
         for c in u.calls(r'Sender::<.*>::update_connection$'):
             p = u.prov_operand(c.args[3])
             R.ob('FLOW', 'FLOW::%s::closure-passed-as-establish-callback' % fnkey(u), p.root[0] == 'agg' and h.id in str(p.root[1]), 'third argument of update_connection is the history closure', c.where, u)
@@ -103,7 +103,7 @@ def history(F, R):
     # Sender::update_connection invokes the callback on create -> Ok
     uc = F.fn('iceoryx2::port::details::sender::Sender::<Service, Resource>::update_connection')
     cr = uc.calls(r'Sender::<.*>::create$')
-    cb = [s for s in uc.sites if s.is_call and re.search(r'Fn(<.*>)?>?::call$|Fn::call$', s.callee or '') and 'establish_new_connection_call' in uc.chain(s.args[0])]
+    cb = lib.param_calls(uc, 'establish_new_connection_call', 4)
     if cr:
         lib.only_under(R, uc, F, cb, cr[0], {'Ok'}, 'establish-callback-on-create-Ok', 'history replay happens exactly when a new connection was established')
     else:
@@ -161,7 +161,7 @@ def receiver_order(F, R):
     ac = f.calls(r'::receive_from_connection$')
     dom(R, f, tb, ac, 'expired-connections-drained<active-connections', 'samples of a publisher that reconnected are received before the new connection\'s (send order)')
     for x in tb:
-        R.ob('FLOW', 'FLOW::%s::same-channel' % fnkey(f), sym_nstr(sym(f, x.args[1])) == 'channel_id', 'receive_from_to_be_removed_connections(%s)' % sym_nstr(sym(f, x.args[1])), x.where, f)
+        R.ob('FLOW', 'FLOW::%s::same-channel' % fnkey(f), lib.param_is(f, x.args[1], 'channel_id', 2), 'receive_from_to_be_removed_connections(%s)' % sym_nstr(sym(f, x.args[1])), x.where, f)
 
 
 def eviction_predicates(F, R):
